@@ -568,4 +568,21 @@ theorem run_finv (M H : Int) (h0 : 0 ≤ M) (h1 : M < 9223372036854775808) (puts
       exact ih (BR.Conc.step s st) (step_inv s st hc) (step_finv s st hc hf)
   exact key sched _ (init_inv M H h0 h1 puts gets hpos) (init_finv M H puts gets)
 
+theorem fileOf_of_mem {fs : List File} (hn : (fs.map File.rnd).Nodup) {f : File} (hf : f ∈ fs) :
+    fileOf fs f.key f.rnd = some f := by
+  unfold fileOf
+  induction fs with
+  | nil => cases hf
+  | cons g gs ih =>
+    simp only [List.map_cons, List.nodup_cons] at hn
+    rcases List.mem_cons.mp hf with e | hmem
+    · subst e; simp [List.find?]
+    · have hne : g.rnd ≠ f.rnd := by
+        intro e
+        exact hn.1 (List.mem_map.mpr ⟨f, hmem, e.symm⟩)
+      have : (g.key == f.key && g.rnd == f.rnd) = false := by simp [hne]
+      simp only [List.find?, this]
+      exact ih hn.2 hmem
+
+
 end BR.Conc
